@@ -616,7 +616,10 @@ class DEVSSimulator(Simulator[TIME], Generic[TIME]):
                     and not self._run_until_including) 
                     or self.eventlist().is_empty()):
                 self._simulator_time = self._run_until_time
-                self._replication_state = ReplicationState.ENDING
+                # only a bound at the end of the replication ends it; an
+                # earlier bound (run_up_to) just pauses the simulator
+                if self._run_until_time >= self._replication.end_sim_time:
+                    self._replication_state = ReplicationState.ENDING
                 self._run_state = RunState.STOPPING
                 return;
             # get the first event
